@@ -79,6 +79,12 @@ func (g *graphRoles) structWrites(info *types.Info, n ast.Node) (muts []string, 
 		if o == nil || fi == nil || isParamOrRecv(fi, info, o) {
 			return false
 		}
+		// a local of the struct type itself (saved := *node): the function's own copy
+		if v, isV := o.(*types.Var); isV && !v.IsField() && !isPointerType(v.Type()) {
+			if _, isSt := v.Type().Underlying().(*types.Struct); isSt {
+				return true
+			}
+		}
 		fresh := false
 		ast.Inspect(fi.Decl.Body, func(y ast.Node) bool {
 			if as, ok := y.(*ast.AssignStmt); ok && len(as.Lhs) == len(as.Rhs) {
